@@ -506,7 +506,15 @@ def capture_stream_server(transport: Any) -> tuple[Any, int, str]:
         return start
 
     saved = (asyncio.start_server, asyncio.start_unix_server)
-    asyncio.start_server, asyncio.start_unix_server = fake("start_server"), fake("start_unix_server")  # type: ignore[assignment]
+    fakes = {id(saved[0]): fake("start_server"), id(saved[1]): fake("start_unix_server")}
+    asyncio.start_server, asyncio.start_unix_server = fakes[id(saved[0])], fakes[id(saved[1])]  # type: ignore[assignment]
+    # (also where the server module bound the functions under names of its own: `from asyncio import start_server`)
+    rebound: list[tuple[dict[str, Any], str, Any]] = []
+    md = G["S"].__dict__
+    for attr, val in list(md.items()):
+        if id(val) in fakes and val in saved:
+            rebound.append((md, attr, val))
+            md[attr] = fakes[id(val)]
     try:
         try:
             drive(transport.run())
@@ -514,6 +522,8 @@ def capture_stream_server(transport: Any) -> tuple[Any, int, str]:
             pass
     finally:
         asyncio.start_server, asyncio.start_unix_server = saved  # type: ignore[assignment]
+        for d, attr, val in rebound:
+            d[attr] = val
     if not got:
         from vf.engine.runner import Broken
 
